@@ -81,9 +81,9 @@ func (a *c11Inst) Receive(*ReceiveContext) {}
 
 type c11Parent struct{}
 
-func (c11Parent) PreStart(*Context) error  { return nil }
-func (c11Parent) PostStop(*Context) error  { return nil }
-func (c11Parent) Receive(*ReceiveContext)  {}
+func (c11Parent) PreStart(*Context) error { return nil }
+func (c11Parent) PostStop(*Context) error { return nil }
+func (c11Parent) Receive(*ReceiveContext) {}
 
 type c11Call struct {
 	Caller  int
@@ -136,18 +136,18 @@ type c11Finding struct {
 }
 
 type c11Obs struct {
-	Knobs      c11Knobs
-	Findings   []c11Finding
-	Calls      []string
-	Notes      []string
-	OK         int   // calls that returned a PID
-	PreStarts  int64
-	Overlap    bool  // at least two calls on the same name overlapped in time
-	Coalesced  bool  // more successful callers than PreStarts (the flight or the lookup was shared)
-	KillRaced  bool  // a Kill of the name overlapped a spawn call of that name
-	Watchdog   string
-	HotSites   []string
-	Delays     int64
+	Knobs     c11Knobs
+	Findings  []c11Finding
+	Calls     []string
+	Notes     []string
+	OK        int // calls that returned a PID
+	PreStarts int64
+	Overlap   bool // at least two calls on the same name overlapped in time
+	Coalesced bool // more successful callers than PreStarts (the flight or the lookup was shared)
+	KillRaced bool // a Kill of the name overlapped a spawn call of that name
+	Watchdog  string
+	HotSites  []string
+	Delays    int64
 }
 
 // c11Env is one actor system shared by the rounds of a batch.
@@ -296,7 +296,10 @@ func (e *c11Env) runRound(t *testing.T, k c11Knobs, seed int64) (obs c11Obs) {
 		calls[i] = c
 	}
 
-	type killRec struct{ Start, End int64; Err, Panic string }
+	type killRec struct {
+		Start, End int64
+		Err, Panic string
+	}
 	var kills []killRec
 	var kmu sync.Mutex
 	kill := func() {
